@@ -13,7 +13,7 @@ if os.path.exists(dst):
 else:
     d = '//go:build verif\n\npackage %s\n\n%s' % (pkg, imports)
 for n in names:
-    pat = r'((?:^//[^\n]*\n)*)^(?:func (?:\([^)]*\) )?%s\(.*?^}\n|type %s (?:struct|interface) ?\{.*?^}\n|type %s [^\n{]*\n|(?:const|var) %s [^\n]*\n)' % (n, n, n, n)
+    pat = r'((?:^//[^\n]*\n)*)^(?:func (?:\([^)]*\) )?%s\([^\n]*\}\n|func (?:\([^)]*\) )?%s\(.*?^}\n|type %s [^\n]*\}\n|type %s (?:struct|interface) ?\{.*?^}\n|type %s [^\n{]*\n|(?:const|var) %s [^\n]*\n)' % (n, n, n, n, n, n)
     mm = re.search(pat, s, re.S | re.M)
     if not mm:
         sys.exit('not found: ' + n)
